@@ -307,6 +307,11 @@ static void s_parse_authority(struct uri_parser *parser, struct aws_byte_cursor 
     const uint8_t *location_of_slash = memchr(str->ptr, '/', str->len);
     const uint8_t *location_of_qmark = memchr(str->ptr, '?', str->len);
 
+    if (location_of_slash && location_of_qmark && location_of_qmark < location_of_slash) {
+        /* the authority ends at whichever of '/' and '?' comes first: a '/' after the '?' belongs to the query */
+        location_of_slash = NULL;
+    }
+
     if (!location_of_slash && !location_of_qmark && str->len) {
         parser->uri->authority.ptr = str->ptr;
         parser->uri->authority.len = str->len;
